@@ -3,6 +3,7 @@ package main
 import (
 	"bytes"
 	"crypto/ed25519"
+	"crypto/sha512"
 	"fmt"
 	"math/big"
 	"math/rand"
@@ -103,7 +104,7 @@ func checkEddsaSignature(r *Run, what string, net *Net, out *sigOutcome, pub *cr
 }
 
 func runC02(r *Run, rng *rand.Rand, thorough bool) {
-	r.Rule = "whole EdDSA signing runs on keys produced by the library's own key generation: (n,t) with n ≤ 4 (≤ 6 thorough), signer subsets of size ≥ t+1, messages {1 byte, 31/32/33/64/200 bytes, leading zero bytes with and without fullBytesLen}, delivery strategies of C07, plus directed runs whose nonce shares are steered so that the encoded R has a zero top byte (with either sign bit); every signature is judged by Go's crypto/ed25519 and by the Lean model's RFC 8032 verifier (own SHA-512 and curve arithmetic); non-trivial = distinct verify op; direct assertions: identical 64-byte output at every signer, standard verifier accepts over exactly the echoed bytes"
+	r.Rule = "whole EdDSA signing runs on keys produced by the library's own key generation: (n,t) with n ≤ 4 (≤ 6 thorough), signer subsets of size ≥ t+1, messages {1 byte, 31/32/33/64/200 bytes, leading zero bytes with and without fullBytesLen}, delivery strategies of C07, plus directed runs whose nonce shares are steered so that the encoded R has a zero top byte (with either sign bit), and directed runs whose message is searched so that S has one or two zero top bytes; every signature is judged by Go's crypto/ed25519 and by the Lean model's RFC 8032 verifier (own SHA-512 and curve arithmetic); non-trivial = distinct verify op; direct assertions: identical 64-byte output at every signer, standard verifier accepts over exactly the echoed bytes"
 	maxN := 4
 	if thorough {
 		maxN = 6
@@ -226,6 +227,96 @@ func runC02(r *Run, rng *rand.Rand, thorough bool) {
 				want := edEncode(target)
 				r.Assert(bytes.Equal(out.sigs[0].Signature[:32], want), "eddsa-signing/directed/steering", "steered-run-produced-the-intended-R", func() string {
 					return fmt.Sprintf("%s: R half of the signature %x, the aggregate nonce point encodes as %x", sh.name, out.sigs[0].Signature[:32], want)
+				})
+			}
+		}
+	}
+	// directed: the message is searched (nonce shares scripted, secret key reconstructed from the shares) so that the
+	// aggregate S = r + h·x mod q has one, respectively two, zero top bytes: the 32-byte little-endian form must still be complete
+	if ks, err := genEdKeys(rng, 3, 1, 2, Strategy{Name: "fifo", Pick: pickFIFO}); err == nil {
+		q := tss.Edwards().Params().N
+		ids := make([]*big.Int, len(ks.keys))
+		xis := make([]*big.Int, len(ks.keys))
+		for i := range ks.keys {
+			ids[i] = new(big.Int).Mod(ks.keys[i].ShareID, q)
+			xis[i] = ks.keys[i].Xi
+		}
+		x := lagrangeZero(q, ids[:2], xis[:2])
+		encA := edEncode(ks.keys[0].EDDSAPub)
+		limits := []int{248}
+		if thorough || r.Seed%2 == 1 {
+			limits = append(limits, 240)
+		}
+		for _, lim := range limits {
+			sub := []int{0, 2}
+			un := make(tss.UnSortedPartyIDs, len(sub))
+			for a, j := range sub {
+				un[a] = ks.pids[j]
+			}
+			pids := tss.SortPartyIDs(un)
+			keys := make([]eddsakeygen.LocalPartySaveData, 0, len(pids))
+			for _, id := range pids {
+				for j, p := range ks.pids {
+					if bytes.Equal(p.Key, id.Key) {
+						keys = append(keys, ks.keys[j])
+					}
+				}
+			}
+			rs := make([]*big.Int, len(pids))
+			rtot := new(big.Int)
+			for j := range rs {
+				rs[j] = new(big.Int).Add(below(rng, new(big.Int).Sub(q, bi(2))), bi(1))
+				rtot.Add(rtot, rs[j])
+			}
+			rtot.Mod(rtot, q)
+			if x == nil || rtot.Sign() == 0 {
+				continue
+			}
+			encR := edEncode(crypto.ScalarBaseMult(tss.Edwards(), rtot))
+			var mb []byte
+			var wantS *big.Int
+			for k := 0; k < 400000 && mb == nil; k++ {
+				cand := randBytes(rng, 32)
+				cand[0] |= 0x80
+				hh := sha512.Sum512(append(append(append([]byte{}, encR...), encA...), cand...))
+				for i, j := 0, 63; i < j; i, j = i+1, j-1 {
+					hh[i], hh[j] = hh[j], hh[i]
+				}
+				h := new(big.Int).Mod(new(big.Int).SetBytes(hh[:]), q)
+				S := new(big.Int).Mod(new(big.Int).Add(rtot, new(big.Int).Mul(h, x)), q)
+				if S.BitLen() <= lim && S.Sign() > 0 {
+					mb, wantS = cand, S
+				}
+			}
+			if mb == nil {
+				r.Note("steering: no message found for S < 2^%d", lim)
+				continue
+			}
+			m := new(big.Int).SetBytes(mb)
+			net := eddsaSigningNet(rng, keys, pids, ks.t, m, len(mb))
+			for j := range net.Nodes {
+				net.Nodes[j].Rand.prefix = padTo(rs[j], 256)
+			}
+			net.Run(rng, Strategy{Name: "fifo", Pick: pickFIFO}, 200000)
+			out := &sigOutcome{panics: net.Panics}
+			for _, nd := range net.Nodes {
+				for _, e := range nd.Ends {
+					out.sigs = append(out.sigs, e.(*common.SignatureData))
+				}
+				if nd.Err != nil {
+					out.errs = append(out.errs, errDesc(nd.Err))
+				}
+			}
+			r.Dist[fmt.Sprintf("eddsa-signing/directed-S-below-2^%d", lim)]++
+			checkEddsaSignature(r, "eddsa-signing/directed-S", net, out, ks.keys[0].EDDSAPub, m, len(mb))
+			if len(out.sigs) > 0 && len(out.sigs[0].Signature) == 64 {
+				le := make([]byte, 32)
+				wantS.FillBytes(le)
+				for i, j := 0, 31; i < j; i, j = i+1, j-1 {
+					le[i], le[j] = le[j], le[i]
+				}
+				r.Assert(bytes.Equal(out.sigs[0].Signature[32:], le), "eddsa-signing/directed-S/steering", "steered-run-produced-the-intended-S", func() string {
+					return fmt.Sprintf("S half %x, predicted %x", out.sigs[0].Signature[32:], le)
 				})
 			}
 		}
